@@ -48,6 +48,19 @@ func main() {
 			fmt.Println("load:", err)
 			os.Exit(4)
 		}
+		if *xref == "nil-index" {
+			var all []string
+			for k := range p.Pkgs {
+				all = append(all, k)
+			}
+			cx := NewCtx(p, "XREF")
+			runNilSliceIndex(cx, "XREF-nil-index", all...)
+			for _, f := range cx.Findings {
+				fmt.Println(f.Pos, f.Construct)
+			}
+			fmt.Println(len(cx.Findings), "candidates")
+			return
+		}
 		xrefUsedAfterError(p, strings.Split(*xref, ","))
 		return
 	}
